@@ -1,47 +1,42 @@
 import Cx.Proofs.DfaCache
+import Cx.Proofs.DfaClass
 import Cx.Proofs.DfaRef
 import Cx.Proofs.DfaLimit
 /-
   Cx.Proofs.Dfa — the lazy DFA of `dfa/lazy` (model: `Cx.Model.Dfa`): summary of what is proved, the combined
-  statements, non-vacuity witnesses and the `decide`-checked deviations.
+  statements, non-vacuity witnesses and the former deviations, now `_fixed`.
 
   (a) MEMOISATION IS INVISIBLE (Cx.Proofs.DfaCache).  Invariant `Inv` (every table entry `(S, class) ↦ T` satisfies
-      `T ≃ step S b`; ids, start table, fresh ids, row 0) holds for `Cache.empty` (`inv_empty`), is preserved by
-      `setTrans`/`insertNew`/`tagStart`/`clearRebuild`/`determinize`/`getStart` and by every search (`inv_call`,
-      `inv_runCalls`), for EVERY capacity and clear limit, and
+      `T ≃ step S b`; ids, start table, fresh ids; a state object with exit bytes loops back to itself on every other
+      byte) holds for `Cache.empty` (`inv_empty`), is preserved by
+      `setTrans`/`insertNew`/`tagStart`/`clearRebuild`/`tryDetect`/`determinize`/`getStart` and by every search, for
+      EVERY capacity and clear limit, and
         searchAtC_eq    : searchAt  with cache = gaveUp ∨ = searchAt  without cache
         earliestC_eq    : searchEarliestMatch (IsMatch/IsMatchAt), same statement
-        anchoredC_eq    : SearchAtAnchored, same statement, ONLY for `maxClears = 0`
-      under `hasWB N = false`, `ClassSound N cfg`, `BytesOK h`, `NoAccel c` (acceleration is off: true for a new cache,
-      preserved by SearchAt/IsMatch/IsMatchAt, broken by SearchAtAnchored), and (`c.clearCount = 0` or no `^`/`\A`).
-      Each hypothesis is necessary:
-        accel_visible            (4 SearchAtAnchored calls, then SearchAt on the same cache: acceleration kicks in and
-                                  `[ab]*a[ab][ab]` "ends" at 7 instead of 3 in "abbab0bb")
-        anchored_clear_visible   (maxClears > 0: SearchAtAnchored loses the threads in flight after a clear)
-        class_unsound_visible    (the byte classes of `(?m)^a` put `\n` and `0` in one class: wrong answer)
-        not_classSound_caretA    (… so `ClassSound` is false for the real class map of that NFA)
-        wb_flags_visible         (`\B`: the pre-check flags of a state depend on how it was first created)
-      `ClassSound` follows from the decidable `classStepB` when there is no look-around (`classSound_of_compat`); the
-      harness finds `classStepB` true for the real byte classes of every look-free NFA it compiles.
-  (b) UNCACHED DFA = REFERENCE (Cx.Proofs.DfaRef), for NFAs without look-around / rune states, disjoint sparse ranges,
-      the compiler's unanchored prefix (all decidable: `lookFreeB`, `noRuneB`, `sparseDisjointB`, `prefixOKB`):
+        anchoredC_eq    : SearchAtAnchored, same statement (any clear limit: a clear keeps the thread set in flight)
+      under `ClassSound N cfg` and `BytesOK h` ONLY — word boundaries, state acceleration (now exact), clears and any
+      history of the cache included.  `ClassSound` follows from the decidable `classStepB` / `classCompatB`
+      (`Cx.Proofs.DfaClass.classSound_of_compat`), which now also check that the byte classes separate `\n` (automata
+      with `(?m)^`/`(?m)$`) and word bytes (automata with `\b`/`\B`), as `nfa.Builder.addLookBoundaries` makes them.
+  (b) UNCACHED DFA = REFERENCE (Cx.Proofs.DfaRef), for EVERY NFA without rune states, with disjoint sparse ranges and
+      the compiler's unanchored prefix (decidable: `noRuneB`, `sparseDisjointB`, `prefixOKB`) — look-around of all six
+      kinds included, evaluated by the reference with `lookOK` on the whole haystack:
         searchAtU_eq_bt  : searchAt  = gaveUp ∨ = ok ((btSearchAt N h at).map (·.2))     (END of the leftmost-first match)
         anchoredU_eq_bt  : SearchAtAnchored = gaveUp ∨ = ok (btFirst N h at at)           (priority-first end from `at`)
-        apiSearchAtU_end : SearchAt at `at = len` = ok ((btSearchAt N h len).map (·.2))
+        apiSearchAtU_end : SearchAt at `at = len` = ok ((btSearchAt N h len).map (·.2))   (every NFA)
       `gaveUp` only through the determinization limit, which is never hit when `wfB N` and
       `N.states.size ≤ cfg.detLimit` (Cx.Proofs.DfaLimit; `searchAtU_eq_bt'` etc. are plain equalities).
   (c) earliestU_eq_bt   : searchEarliestMatch = gaveUp ∨ = ok (btSearchAt N h at).isSome, and
       bt_isSome_iff     : that is `∃ i j, at ≤ i ≤ len ∧ Accepts N h i j`.
   (a)+(b)+(c) combined: `searchAt_cached_eq_ref`, `isMatchAt_cached_iff`, `searchAtAnchored_cached_eq_ref`, and for
-      whole sessions (any sequence of SearchAt/IsMatch/IsMatchAt calls on one cache, clears included):
-      `session_searchAt`, `session_isMatchAt` (`inv_runCalls`: the table invariant survives all four entry points);
-      `session_AB` is a closed instance (real NFA of `a|ab`, real byte classes, every hypothesis decided).
-  (d) LOOK-AROUND: the model follows the code (fidelity harness: 0 mismatches); where the code deviates from the
-      reference the deviation is reproduced here on the dumped NFA:
-        empty_at_end_deviates    `^`  on "a" at 1: `matchesEmpty` asks the Pike VM about the EMPTY haystack
-        wb_precheck_deviates     `x*\b` on "a\nx" at 2: the word-boundary pre-check returns before the greedy `x`
-        wb_precheck_deviates2    `a|\B` on "aa" at 1: the pre-check beats the higher-priority branch `a`
-      (and `class_unsound_visible` above, which is how most `(?m)^`, `$`, `\b` patterns go wrong in the real DFA).
+      whole sessions (ANY sequence of SearchAt/SearchAtAnchored/IsMatch/IsMatchAt calls on one cache, clears and
+      acceleration included): `session_searchAt`, `session_isMatchAt`, `session_searchAtAnchored`;
+      `session_AB` (look-free) and `session_caretA`, `session_xsWB` (`(?m)^a`, `x*\b` with their real byte classes) are
+      closed instances with every hypothesis decided.
+  (d) THE FORMER DEVIATIONS ARE GONE: each `decide`-checked witness of the previous tree is restated on the same NFA,
+      haystack and cache configuration and now agrees with the reference:
+        class_fixed, empty_at_end_fixed, wb_precheck_fixed, wb_precheck_fixed2, anchored_clear_fixed, accel_fixed,
+        wb_flags_fixed;  `old_classes_rejected`: the class map of the previous tree is refused by the checker.
 -/
 namespace Cx.Dfa
 open Cx Cx.Nfa
@@ -63,88 +58,122 @@ theorem apiSearchAtAnchored_lt (N : NFA) (cfg : Config) (c : Cache) (h : Bytes) 
   unfold apiSearchAtAnchored
   rw [if_neg (by omega), if_neg (by omega)]
 
+theorem apiSearchAt_end (N : NFA) (cfg : Config) (c : Cache) (h : Bytes) :
+    apiSearchAt N cfg c h h.size = (.ok ((btSearchAt N h h.size).map (·.2)), c) := by
+  have := apiSearchAtU_end N cfg h
+  unfold apiSearchAtU at this
+  rw [if_neg (by omega), if_pos rfl] at this
+  unfold apiSearchAt
+  rw [if_neg (by omega), if_pos rfl, this]
+
 /-! ### (a) + (b) + (c) -/
 
-theorem noStartLook_of_lookFree {N : NFA} (h : lookFreeB N = true) : noStartLookB N = true := by
-  unfold noStartLookB
-  rw [hasLookWhere_lookFree h]
-  rfl
+/-- (b) for both shapes of compiled automata: unanchored `(?s:.)*?` prefix, or always anchored (`\A…`, no prefix) -/
+theorem searchAtU_eq_bt_any {N : NFA} (hnrB : noRuneB N = true) (hsdB : sparseDisjointB N = true)
+    (hp : prefixOKB N = true ∨ anchoredHeadB N = true) (cfg : Config) (hbrk : cfg.breakAtMatch = true) {h : Bytes}
+    (hb : BytesOK h) {at_ : Nat} (hat : at_ ≤ h.size) :
+    searchAtU N cfg h at_ = .gaveUp ∨ searchAtU N cfg h at_ = .ok ((btSearchAt N h at_).map (·.2)) := by
+  rcases hp with hp | hp
+  · exact searchAtU_eq_bt hnrB hsdB hp cfg hbrk hb hat
+  · exact searchAtU_eq_bt_anchored hnrB hsdB hp cfg hbrk hat
 
-/-- `SearchAt` on a cache: NFA fallback, or the end of the reference's leftmost-first match -/
-theorem searchAt_cached_eq_ref {N : NFA} (hlfB : lookFreeB N = true) (hnrB : noRuneB N = true)
-    (hsdB : sparseDisjointB N = true) (hpB : prefixOKB N = true) {cfg : Config} (hbrk : cfg.breakAtMatch = true)
-    (hC : ClassSound N cfg) {h : Bytes} (hb : BytesOK h) {c : Cache} (hI : Inv N cfg c) (hN : NoAccel c)
-    {at_ : Nat} (hat : at_ < h.size) :
-    Inv N cfg (apiSearchAt N cfg c h at_).2 ∧ NoAccel (apiSearchAt N cfg c h at_).2 ∧
+theorem earliestU_eq_bt_any {N : NFA} (hnrB : noRuneB N = true) (hsdB : sparseDisjointB N = true)
+    (hp : prefixOKB N = true ∨ anchoredHeadB N = true) (cfg : Config) (hbrk : cfg.breakAtMatch = true) {h : Bytes}
+    (hb : BytesOK h) {at_ : Nat} (hat : at_ ≤ h.size) :
+    earliestU N cfg h at_ = .gaveUp ∨ earliestU N cfg h at_ = .ok (btSearchAt N h at_).isSome := by
+  rcases hp with hp | hp
+  · exact earliestU_eq_bt hnrB hsdB hp cfg hbrk hb hat
+  · exact earliestU_eq_bt_anchored hnrB hsdB hp cfg hbrk hat
+
+/-- `SearchAt` on a cache: NFA fallback, or the end of the reference's leftmost-first match (`at ≤ len`) -/
+theorem searchAt_cached_eq_ref {N : NFA} (hnrB : noRuneB N = true) (hsdB : sparseDisjointB N = true)
+    (hpB : prefixOKB N = true ∨ anchoredHeadB N = true) {cfg : Config} (hbrk : cfg.breakAtMatch = true)
+    (hC : ClassSound N cfg) {h : Bytes} (hb : BytesOK h) {c : Cache} (hI : Inv N cfg c) {at_ : Nat} (hat : at_ ≤ h.size) :
+    Inv N cfg (apiSearchAt N cfg c h at_).2 ∧
     ((apiSearchAt N cfg c h at_).1 = .gaveUp ∨ (apiSearchAt N cfg c h at_).1 = .ok ((btSearchAt N h at_).map (·.2))) := by
-  rw [apiSearchAt_lt N cfg c h hat]
-  obtain ⟨i1, i1', i2⟩ := searchAtC_eq (hasWB_of_lookFree hlfB) hC hb hI hN (Or.inr (noStartLook_of_lookFree hlfB)) hat
-  refine ⟨i1, i1', ?_⟩
-  rcases i2 with hg | he
-  · exact Or.inl hg
-  · rw [he]
-    exact searchAtU_eq_bt hlfB hnrB hsdB hpB cfg hbrk hb (Nat.le_of_lt hat)
+  by_cases hlt : at_ < h.size
+  · rw [apiSearchAt_lt N cfg c h hlt]
+    obtain ⟨i1, i2⟩ := searchAtC_eq hC hb hI at_
+    refine ⟨i1, ?_⟩
+    rcases i2 with hg | he
+    · exact Or.inl hg
+    · rw [he]
+      exact searchAtU_eq_bt_any hnrB hsdB hpB cfg hbrk hb hat
+  · have : at_ = h.size := by omega
+    subst this
+    rw [apiSearchAt_end]
+    exact ⟨hI, Or.inr rfl⟩
+
+/-- an accepted span that starts at `len` is empty -/
+theorem accepts_end_iff (N : NFA) (h : Bytes) :
+    (∃ i j, h.size ≤ i ∧ i ≤ h.size ∧ Accepts N h i j) ↔ Accepts N h h.size h.size := by
+  constructor
+  · intro ⟨i, j, h1, h2, ha⟩
+    have hi : i = h.size := by omega
+    subst hi
+    have := reaches_pos_le ha (Nat.le_refl _)
+    have hj : j = h.size := by omega
+    subst hj
+    exact ha
+  · intro ha
+    exact ⟨h.size, h.size, Nat.le_refl _, Nat.le_refl _, ha⟩
 
 /-- `IsMatchAt` on a cache: NFA fallback, or `true` exactly when some span starting at or after `at` is accepted -/
-theorem isMatchAt_cached_iff {N : NFA} (hlfB : lookFreeB N = true) (hnrB : noRuneB N = true)
-    (hsdB : sparseDisjointB N = true) (hpB : prefixOKB N = true) {cfg : Config} (hbrk : cfg.breakAtMatch = true)
-    (hC : ClassSound N cfg) {h : Bytes} (hb : BytesOK h) {c : Cache} (hI : Inv N cfg c) (hN : NoAccel c)
-    {at_ : Nat} (hat : at_ < h.size) :
+theorem isMatchAt_cached_iff {N : NFA} (hnrB : noRuneB N = true)
+    (hsdB : sparseDisjointB N = true) (hpB : prefixOKB N = true ∨ anchoredHeadB N = true) {cfg : Config} (hbrk : cfg.breakAtMatch = true)
+    (hC : ClassSound N cfg) {h : Bytes} (hb : BytesOK h) {c : Cache} (hI : Inv N cfg c) {at_ : Nat} (hat : at_ ≤ h.size) :
     (apiIsMatchAt N cfg c h at_).1 = .gaveUp ∨
     ∃ r, (apiIsMatchAt N cfg c h at_).1 = .ok r ∧ (r = true ↔ ∃ i j, at_ ≤ i ∧ i ≤ h.size ∧ Accepts N h i j) := by
-  rw [apiIsMatchAt_lt N cfg c h hat]
-  rcases (earliestC_eq (hasWB_of_lookFree hlfB) hC hb hI hN (Or.inr (noStartLook_of_lookFree hlfB)) hat).2.2 with hg | he
-  · exact Or.inl hg
-  · rw [he]
-    rcases earliestU_eq_bt hlfB hnrB hsdB hpB cfg hbrk hb (Nat.le_of_lt hat) with hg | hok
+  by_cases hlt : at_ < h.size
+  · rw [apiIsMatchAt_lt N cfg c h hlt]
+    rcases (earliestC_eq hC hb hI at_).2 with hg | he
     · exact Or.inl hg
-    · exact Or.inr ⟨_, hok, bt_isSome_iff N h (Nat.le_of_lt hat)⟩
+    · rw [he]
+      rcases earliestU_eq_bt_any hnrB hsdB hpB cfg hbrk hb hat with hg | hok
+      · exact Or.inl hg
+      · exact Or.inr ⟨_, hok, bt_isSome_iff N h hat⟩
+  · have : at_ = h.size := by omega
+    subst this
+    right
+    unfold apiIsMatchAt
+    rw [if_pos (Nat.le_refl _), if_pos rfl]
+    exact ⟨_, rfl, by rw [accepts_end_iff]; exact matchesEmptyAt_iff N h⟩
 
-/-- `SearchAtAnchored` on a cache that is never cleared: NFA fallback, or the priority-first end from `at` -/
-theorem searchAtAnchored_cached_eq_ref {N : NFA} (hlfB : lookFreeB N = true) (hnrB : noRuneB N = true)
-    (hsdB : sparseDisjointB N = true) {cfg : Config} (hbrk : cfg.breakAtMatch = true) (hm0 : cfg.maxClears = 0)
-    (hC : ClassSound N cfg) {h : Bytes} (hb : BytesOK h) {c : Cache} (hI : Inv N cfg c) (h0 : c.clearCount = 0)
+/-- `SearchAtAnchored` on a cache, ANY clear limit: anchored NFA fallback, or the priority-first end from `at` -/
+theorem searchAtAnchored_cached_eq_ref {N : NFA} (hnrB : noRuneB N = true)
+    (hsdB : sparseDisjointB N = true) {cfg : Config} (hbrk : cfg.breakAtMatch = true)
+    (hC : ClassSound N cfg) {h : Bytes} (hb : BytesOK h) {c : Cache} (hI : Inv N cfg c)
     {at_ : Nat} (hat : at_ < h.size) :
     (apiSearchAtAnchored N cfg c h at_).1 = .gaveUp ∨
     (apiSearchAtAnchored N cfg c h at_).1 = .ok (Pike.btFirst N h at_ at_) := by
   rw [apiSearchAtAnchored_lt N cfg c h hat]
-  rcases (anchoredC_eq (hasWB_of_lookFree hlfB) hC hb hm0 hI h0 hat).2 with hg | he
+  rcases (anchoredC_eq hC hb hI (Nat.le_of_lt hat)).2 with hg | he
   · exact Or.inl hg
   · rw [he]
-    exact anchoredU_eq_bt hlfB hnrB hsdB cfg hbrk h (Nat.le_of_lt hat)
-
-/-- `SearchAt` at `at = len` (the cache is only consulted for the state in row 0) -/
-theorem searchAt_cached_end {N : NFA} (hlfB : lookFreeB N = true) (hpB : prefixOKB N = true) {cfg : Config} {h : Bytes}
-    {c : Cache} (hI : Inv N cfg c) :
-    apiSearchAt N cfg c h h.size = (.ok ((btSearchAt N h h.size).map (·.2)), c) := by
-  have := apiSearchAtU_end hlfB cfg h
-  unfold apiSearchAtU at this
-  rw [if_neg (by omega), if_pos rfl] at this
-  unfold apiSearchAt
-  rw [if_neg (by omega), if_pos rfl, matchesEmptyC_eq hlfB hpB hI, this]
+    exact anchoredU_eq_bt hnrB hsdB cfg hbrk h (Nat.le_of_lt hat)
 
 /-- the uncached searches with the limit out of the way: plain equalities -/
-theorem searchAtU_eq_bt' {N : NFA} (hwf : wfB N = true) (hlfB : lookFreeB N = true) (hnrB : noRuneB N = true)
-    (hsdB : sparseDisjointB N = true) (hpB : prefixOKB N = true) (cfg : Config) (hbrk : cfg.breakAtMatch = true)
+theorem searchAtU_eq_bt' {N : NFA} (hwf : wfB N = true) (hnrB : noRuneB N = true)
+    (hsdB : sparseDisjointB N = true) (hpB : prefixOKB N = true ∨ anchoredHeadB N = true) (cfg : Config) (hbrk : cfg.breakAtMatch = true)
     (hl : N.states.size ≤ cfg.detLimit) {h : Bytes} (hb : BytesOK h) {at_ : Nat} (hat : at_ ≤ h.size) :
     searchAtU N cfg h at_ = .ok ((btSearchAt N h at_).map (·.2)) := by
-  rcases searchAtU_eq_bt hlfB hnrB hsdB hpB cfg hbrk hb hat with hg | he
+  rcases searchAtU_eq_bt_any hnrB hsdB hpB cfg hbrk hb hat with hg | he
   · exact absurd hg (searchAtU_ne_gaveUp hwf hl h at_)
   · exact he
 
-theorem anchoredU_eq_bt' {N : NFA} (hwf : wfB N = true) (hlfB : lookFreeB N = true) (hnrB : noRuneB N = true)
+theorem anchoredU_eq_bt' {N : NFA} (hwf : wfB N = true) (hnrB : noRuneB N = true)
     (hsdB : sparseDisjointB N = true) (cfg : Config) (hbrk : cfg.breakAtMatch = true)
     (hl : N.states.size ≤ cfg.detLimit) (h : Bytes) {at_ : Nat} (hat : at_ ≤ h.size) :
     anchoredU N cfg h at_ = .ok (Pike.btFirst N h at_ at_) := by
-  rcases anchoredU_eq_bt hlfB hnrB hsdB cfg hbrk h hat with hg | he
+  rcases anchoredU_eq_bt hnrB hsdB cfg hbrk h hat with hg | he
   · exact absurd hg (anchoredU_ne_gaveUp hwf hl h at_)
   · exact he
 
-theorem earliestU_eq_bt' {N : NFA} (hwf : wfB N = true) (hlfB : lookFreeB N = true) (hnrB : noRuneB N = true)
-    (hsdB : sparseDisjointB N = true) (hpB : prefixOKB N = true) (cfg : Config) (hbrk : cfg.breakAtMatch = true)
+theorem earliestU_eq_bt' {N : NFA} (hwf : wfB N = true) (hnrB : noRuneB N = true)
+    (hsdB : sparseDisjointB N = true) (hpB : prefixOKB N = true ∨ anchoredHeadB N = true) (cfg : Config) (hbrk : cfg.breakAtMatch = true)
     (hl : N.states.size ≤ cfg.detLimit) {h : Bytes} (hb : BytesOK h) {at_ : Nat} (hat : at_ ≤ h.size) :
     earliestU N cfg h at_ = .ok (btSearchAt N h at_).isSome := by
-  rcases earliestU_eq_bt hlfB hnrB hsdB hpB cfg hbrk hb hat with hg | he
+  rcases earliestU_eq_bt_any hnrB hsdB hpB cfg hbrk hb hat with hg | he
   · exact absurd hg (earliestU_ne_gaveUp hwf hl h at_)
   · exact he
 
@@ -162,10 +191,6 @@ def Call.hay : Call → Bytes
   | .searchAtAnchored h _ => h
   | .isMatch h => h
   | .isMatchAt h _ => h
-
-def Call.isAnchored : Call → Bool
-  | .searchAtAnchored _ _ => true
-  | _ => false
 
 /-- the cache after the call -/
 def Call.run (N : NFA) (cfg : Config) (c : Cache) : Call → Cache
@@ -188,7 +213,7 @@ theorem inv_call {N : NFA} {cfg : Config} (hC : ClassSound N cfg) {c : Cache} (h
     · exact hI
     · split
       · exact hI
-      · exact searchAtC_inv (h := h) hC hb hI a
+      · exact (searchAtC_eq (h := h) hC hb hI a).1
   | searchAtAnchored h a =>
     show Inv N cfg (apiSearchAtAnchored N cfg c h a).2
     unfold apiSearchAtAnchored
@@ -196,46 +221,19 @@ theorem inv_call {N : NFA} {cfg : Config} (hC : ClassSound N cfg) {c : Cache} (h
     · exact hI
     · split
       · exact hI
-      · exact anchoredC_inv (h := h) hC hb hI a
+      · exact (anchoredC_eq (h := h) hC hb hI (by omega)).1
   | isMatch h =>
     show Inv N cfg (apiIsMatch N cfg c h).2
     unfold apiIsMatch
     split
     · exact hI
-    · exact earliestC_inv (h := h) hC hb hI 0
+    · exact (earliestC_eq (h := h) hC hb hI 0).1
   | isMatchAt h a =>
     show Inv N cfg (apiIsMatchAt N cfg c h a).2
     unfold apiIsMatchAt
     split
     · exact hI
-    · exact earliestC_inv (h := h) hC hb hI a
-
-/-- acceleration stays off under `SearchAt` / `IsMatch` / `IsMatchAt` calls -/
-theorem noAccel_call {N : NFA} {cfg : Config} (hW : hasWB N = false) (hns : noStartLookB N = true) (hC : ClassSound N cfg)
-    {c : Cache} (hI : Inv N cfg c) (hN : NoAccel c) (k : Call) (hb : BytesOK k.hay) (hk : k.isAnchored = false) :
-    NoAccel (k.run N cfg c) := by
-  cases k with
-  | searchAt h a =>
-    show NoAccel (apiSearchAt N cfg c h a).2
-    unfold apiSearchAt
-    split
-    · exact hN
-    · split
-      · exact hN
-      · exact (searchAtC_eq (h := h) hW hC hb hI hN (Or.inr hns) (by omega)).2.1
-  | searchAtAnchored h a => cases hk
-  | isMatch h =>
-    show NoAccel (apiIsMatch N cfg c h).2
-    unfold apiIsMatch
-    split
-    · exact hN
-    · exact (earliestC_eq (h := h) hW hC hb hI hN (Or.inr hns) (by omega)).2.1
-  | isMatchAt h a =>
-    show NoAccel (apiIsMatchAt N cfg c h a).2
-    unfold apiIsMatchAt
-    split
-    · exact hN
-    · exact (earliestC_eq (h := h) hW hC hb hI hN (Or.inr hns) (by omega)).2.1
+    · exact (earliestC_eq (h := h) hC hb hI a).1
 
 /-- every cache reachable from `NewCache()` by calls of the four entry points satisfies the table invariant -/
 theorem inv_runCalls {N : NFA} {cfg : Config} (hC : ClassSound N cfg) (calls : List Call)
@@ -250,51 +248,33 @@ theorem inv_runCalls {N : NFA} {cfg : Config} (hC : ClassSound N cfg) (calls : L
     intro c hI hb
     exact ih _ (inv_call hC hI k (hb k List.mem_cons_self)) (fun k' hk' => hb k' (List.mem_cons_of_mem _ hk'))
 
-/-- … and acceleration is off in it if `SearchAtAnchored` was never among the calls -/
-theorem noAccel_runCalls {N : NFA} {cfg : Config} (hW : hasWB N = false) (hns : noStartLookB N = true)
-    (hC : ClassSound N cfg) (calls : List Call) (hb : ∀ k ∈ calls, BytesOK k.hay)
-    (hk : ∀ k ∈ calls, k.isAnchored = false) : NoAccel (runCalls N cfg calls) := by
-  unfold runCalls
-  suffices ∀ (l : List Call) (c : Cache), Inv N cfg c → NoAccel c → (∀ k ∈ l, BytesOK k.hay) →
-      (∀ k ∈ l, k.isAnchored = false) → NoAccel (l.foldl (Call.run N cfg) c) from
-    this calls _ (inv_empty N cfg) noAccel_empty hb hk
-  intro l
-  induction l with
-  | nil => intro c _ hN _ _; exact hN
-  | cons k ks ih =>
-    intro c hI hN hb hk
-    exact ih _ (inv_call hC hI k (hb k List.mem_cons_self))
-      (noAccel_call hW hns hC hI hN k (hb k List.mem_cons_self) (hk k List.mem_cons_self))
-      (fun k' hk' => hb k' (List.mem_cons_of_mem _ hk')) (fun k' hk' => hk k' (List.mem_cons_of_mem _ hk'))
-
-/-- (a)+(b) FOR A WHOLE SESSION: after ANY sequence of `SearchAt` / `IsMatch` / `IsMatchAt` calls on one cache (any
-    capacity, any clear limit, clears included), `SearchAt` either falls back to the NFA or reports the end of the
-    reference's leftmost-first match.  (`SearchAtAnchored` calls on the same cache are excluded: they enable the
-    unsound state acceleration, `accel_visible`.) -/
-theorem session_searchAt {N : NFA} (hlfB : lookFreeB N = true) (hnrB : noRuneB N = true) (hsdB : sparseDisjointB N = true)
-    (hpB : prefixOKB N = true) {cfg : Config} (hbrk : cfg.breakAtMatch = true) (hC : ClassSound N cfg)
-    (calls : List Call) (hbs : ∀ k ∈ calls, BytesOK k.hay) (hks : ∀ k ∈ calls, k.isAnchored = false) {h : Bytes}
+/-- (a)+(b) FOR A WHOLE SESSION: after ANY sequence of `SearchAt` / `SearchAtAnchored` / `IsMatch` / `IsMatchAt` calls on
+    one cache (any capacity, any clear limit; clears and state acceleration included), `SearchAt` either falls back to
+    the NFA or reports the end of the reference's leftmost-first match — look-around included. -/
+theorem session_searchAt {N : NFA} (hnrB : noRuneB N = true) (hsdB : sparseDisjointB N = true)
+    (hpB : prefixOKB N = true ∨ anchoredHeadB N = true) {cfg : Config} (hbrk : cfg.breakAtMatch = true) (hC : ClassSound N cfg)
+    (calls : List Call) (hbs : ∀ k ∈ calls, BytesOK k.hay) {h : Bytes}
     (hb : BytesOK h) {at_ : Nat} (hat : at_ ≤ h.size) :
     (apiSearchAt N cfg (runCalls N cfg calls) h at_).1 = .gaveUp ∨
-    (apiSearchAt N cfg (runCalls N cfg calls) h at_).1 = .ok ((btSearchAt N h at_).map (·.2)) := by
-  have hI := inv_runCalls hC calls hbs
-  have hN := noAccel_runCalls (hasWB_of_lookFree hlfB) (noStartLook_of_lookFree hlfB) hC calls hbs hks
-  by_cases hlt : at_ < h.size
-  · exact (searchAt_cached_eq_ref hlfB hnrB hsdB hpB hbrk hC hb hI hN hlt).2.2
-  · have : at_ = h.size := by omega
-    subst this
-    right
-    rw [searchAt_cached_end hlfB hpB hI]
+    (apiSearchAt N cfg (runCalls N cfg calls) h at_).1 = .ok ((btSearchAt N h at_).map (·.2)) :=
+  (searchAt_cached_eq_ref hnrB hsdB hpB hbrk hC hb (inv_runCalls hC calls hbs) hat).2
 
-theorem session_isMatchAt {N : NFA} (hlfB : lookFreeB N = true) (hnrB : noRuneB N = true) (hsdB : sparseDisjointB N = true)
-    (hpB : prefixOKB N = true) {cfg : Config} (hbrk : cfg.breakAtMatch = true) (hC : ClassSound N cfg)
-    (calls : List Call) (hbs : ∀ k ∈ calls, BytesOK k.hay) (hks : ∀ k ∈ calls, k.isAnchored = false) {h : Bytes}
-    (hb : BytesOK h) {at_ : Nat} (hat : at_ < h.size) :
+theorem session_isMatchAt {N : NFA} (hnrB : noRuneB N = true) (hsdB : sparseDisjointB N = true)
+    (hpB : prefixOKB N = true ∨ anchoredHeadB N = true) {cfg : Config} (hbrk : cfg.breakAtMatch = true) (hC : ClassSound N cfg)
+    (calls : List Call) (hbs : ∀ k ∈ calls, BytesOK k.hay) {h : Bytes}
+    (hb : BytesOK h) {at_ : Nat} (hat : at_ ≤ h.size) :
     (apiIsMatchAt N cfg (runCalls N cfg calls) h at_).1 = .gaveUp ∨
     ∃ r, (apiIsMatchAt N cfg (runCalls N cfg calls) h at_).1 = .ok r ∧
       (r = true ↔ ∃ i j, at_ ≤ i ∧ i ≤ h.size ∧ Accepts N h i j) :=
-  isMatchAt_cached_iff hlfB hnrB hsdB hpB hbrk hC hb (inv_runCalls hC calls hbs)
-    (noAccel_runCalls (hasWB_of_lookFree hlfB) (noStartLook_of_lookFree hlfB) hC calls hbs hks) hat
+  isMatchAt_cached_iff hnrB hsdB hpB hbrk hC hb (inv_runCalls hC calls hbs) hat
+
+theorem session_searchAtAnchored {N : NFA} (hnrB : noRuneB N = true) (hsdB : sparseDisjointB N = true)
+    {cfg : Config} (hbrk : cfg.breakAtMatch = true) (hC : ClassSound N cfg)
+    (calls : List Call) (hbs : ∀ k ∈ calls, BytesOK k.hay) {h : Bytes}
+    (hb : BytesOK h) {at_ : Nat} (hat : at_ < h.size) :
+    (apiSearchAtAnchored N cfg (runCalls N cfg calls) h at_).1 = .gaveUp ∨
+    (apiSearchAtAnchored N cfg (runCalls N cfg calls) h at_).1 = .ok (Pike.btFirst N h at_ at_) :=
+  searchAtAnchored_cached_eq_ref hnrB hsdB hbrk hC hb (inv_runCalls hC calls hbs) hat
 
 /-! ### non-vacuity: the compiled NFA of `a|ab` (dumped from the real compiler) -/
 
@@ -303,8 +283,7 @@ def nfaAB : NFA :=
   { states := #[.byteRange 97 97 3, .eps 4, .byteRange 98 98 4, .split 1 2, .eps 5, .mtch, .byteRange 0 255 7, .split 0 6],
     startAnchored := 0, startUnanchored := 7 }
 
-example : lookFreeB nfaAB = true ∧ noRuneB nfaAB = true ∧ sparseDisjointB nfaAB = true ∧ prefixOKB nfaAB = true ∧
-    wfB nfaAB = true := by decide
+example : noRuneB nfaAB = true ∧ sparseDisjointB nfaAB = true ∧ prefixOKB nfaAB = true ∧ wfB nfaAB = true := by decide
 
 theorem bytesOK_bab : BytesOK #[98, 97, 98] := by
   intro i
@@ -318,7 +297,7 @@ theorem bytesOK_bab : BytesOK #[98, 97, 98] := by
 example : searchAtU nfaAB Config.plain #[98, 97, 98] 0 = .ok (some 2) := by decide
 
 example : searchAtU nfaAB Config.plain #[98, 97, 98] 0 = .ok ((btSearchAt nfaAB #[98, 97, 98] 0).map (·.2)) := by
-  rcases searchAtU_eq_bt (N := nfaAB) (by decide) (by decide) (by decide) (by decide) Config.plain rfl bytesOK_bab
+  rcases searchAtU_eq_bt (N := nfaAB) (by decide) (by decide) (by decide) Config.plain rfl bytesOK_bab
     (at_ := 0) (by decide) with h | h
   · exact absurd h (by decide)
   · exact h
@@ -335,18 +314,104 @@ set_option maxRecDepth 100000 in
 theorem classStep_AB : classStepB nfaAB clsAB = true := by decide +kernel
 
 /-- A CLOSED INSTANCE: for the compiled NFA of `a|ab` with its real byte classes, ANY capacity and clear limit, after ANY
-    sequence of `SearchAt`/`IsMatch`/`IsMatchAt` calls on the cache, `SearchAt` is the NFA fallback or the reference's end — all hypotheses decided -/
+    sequence of calls of the four entry points on the cache, `SearchAt` is the NFA fallback or the reference's end — all
+    hypotheses decided -/
 theorem session_AB (capacity maxClears : Nat) (calls : List Call) (hbs : ∀ k ∈ calls, BytesOK k.hay)
-    (hks : ∀ k ∈ calls, k.isAnchored = false) {h : Bytes} (hb : BytesOK h) {at_ : Nat} (hat : at_ ≤ h.size) :
+    {h : Bytes} (hb : BytesOK h) {at_ : Nat} (hat : at_ ≤ h.size) :
     let cfg : Config := { capacity := capacity, maxClears := maxClears, stride := 4, cls := clsAB }
     (apiSearchAt nfaAB cfg (runCalls nfaAB cfg calls) h at_).1 = .gaveUp ∨
     (apiSearchAt nfaAB cfg (runCalls nfaAB cfg calls) h at_).1 = .ok ((btSearchAt nfaAB h at_).map (·.2)) := by
   intro cfg
-  have hlf : lookFreeB nfaAB = true := by decide
-  exact session_searchAt hlf (by decide) (by decide) (by decide) rfl
-    (classSound_of_compat hlf cfg rfl (classCompat_of_step classStep_AB)) calls hbs hks hb hat
+  exact session_searchAt (by decide) (by decide) (Or.inl (by decide)) rfl
+    (classSound_of_compat cfg (classCompat_of_step classStep_AB)) calls hbs hb hat
 
-/-! ### (a) fails without its hypotheses -/
+/-! ### closed instances WITH look-around -/
+
+/-- `(?m)^a`: `0/4/L.2.1;B.97.97.2;M;B.0.255.4;P.0.3` -/
+def nfaCaretA : NFA :=
+  { states := #[.look .startLine 1, .byteRange 97 97 2, .mtch, .byteRange 0 255 4, .split 0 3],
+    startAnchored := 0, startUnanchored := 4 }
+
+/-- the byte classes the compiler NOW computes for `(?m)^a`: `[00-09]`, `[0A]`, `[0B-60]`, `[61]`, `[62-FF]` -/
+def clsCaretA (b : Nat) : Nat := if b < 10 then 0 else if b = 10 then 1 else if b < 97 then 2 else if b = 97 then 3 else 4
+
+def cfgCaretA : Config := { capacity := 2097152, maxClears := 5, stride := 5, cls := clsCaretA }
+
+set_option maxRecDepth 100000 in
+theorem classStep_caretA : classStepB nfaCaretA clsCaretA = true := by decide +kernel
+
+/-- `(?m)^a` with its real byte classes: any capacity, any clear limit, any history — `SearchAt` is the NFA fallback or
+    the reference's end -/
+theorem session_caretA (capacity maxClears : Nat) (calls : List Call) (hbs : ∀ k ∈ calls, BytesOK k.hay)
+    {h : Bytes} (hb : BytesOK h) {at_ : Nat} (hat : at_ ≤ h.size) :
+    let cfg : Config := { capacity := capacity, maxClears := maxClears, stride := 5, cls := clsCaretA }
+    (apiSearchAt nfaCaretA cfg (runCalls nfaCaretA cfg calls) h at_).1 = .gaveUp ∨
+    (apiSearchAt nfaCaretA cfg (runCalls nfaCaretA cfg calls) h at_).1 = .ok ((btSearchAt nfaCaretA h at_).map (·.2)) := by
+  intro cfg
+  exact session_searchAt (by decide) (by decide) (Or.inl (by decide)) rfl
+    (classSound_of_compat cfg (classCompat_of_step classStep_caretA)) calls hbs hb hat
+
+/-- `x*\b`: `2/6/B.120.120.2;E.3;P.0.1;L.4.4;M;B.0.255.6;P.2.5` -/
+def nfaXsWB : NFA :=
+  { states := #[.byteRange 120 120 2, .eps 3, .split 0 1, .look .wordB 4, .mtch, .byteRange 0 255 6, .split 2 5],
+    startAnchored := 2, startUnanchored := 6 }
+
+/-- the byte classes the compiler NOW computes for `x*\b`:
+    `[00-2F] [30-39] [3A-40] [41-5A] [5B-5E] [5F] [60] [61-77] [78] [79-7A] [7B-FF]` -/
+def clsXsWB (b : Nat) : Nat :=
+  if b < 48 then 0 else if b < 58 then 1 else if b < 65 then 2 else if b < 91 then 3 else if b < 95 then 4
+  else if b = 95 then 5 else if b = 96 then 6 else if b < 120 then 7 else if b = 120 then 8 else if b < 123 then 9 else 10
+
+set_option maxRecDepth 100000 in
+theorem classStep_xsWB : classStepB nfaXsWB clsXsWB = true := by decide +kernel
+
+/-- `x*\b` with its real byte classes: any capacity, any clear limit, any history -/
+theorem session_xsWB (capacity maxClears : Nat) (calls : List Call) (hbs : ∀ k ∈ calls, BytesOK k.hay)
+    {h : Bytes} (hb : BytesOK h) {at_ : Nat} (hat : at_ ≤ h.size) :
+    let cfg : Config := { capacity := capacity, maxClears := maxClears, stride := 11, cls := clsXsWB }
+    (apiSearchAt nfaXsWB cfg (runCalls nfaXsWB cfg calls) h at_).1 = .gaveUp ∨
+    (apiSearchAt nfaXsWB cfg (runCalls nfaXsWB cfg calls) h at_).1 = .ok ((btSearchAt nfaXsWB h at_).map (·.2)) := by
+  intro cfg
+  exact session_searchAt (by decide) (by decide) (Or.inl (by decide)) rfl
+    (classSound_of_compat cfg (classCompat_of_step classStep_xsWB)) calls hbs hb hat
+
+/-! ### (d) the former deviations, on the same automata, haystacks and configurations -/
+
+/-- the class map the previous tree computed for `(?m)^a` (`[00-60]`, `[61]`, `[62-FF]`: `\n` not separated) is refused
+    by the checker — and the map of this tree is accepted (`classStep_caretA`) -/
+theorem old_classes_rejected :
+    classStepB nfaCaretA (fun b => if b < 97 then 0 else if b = 97 then 1 else 2) = false := by decide +kernel
+
+/-- was `class_unsound_visible` (`(?m)^a` "matched" in "\n0a", end 3): with the byte classes of this tree the cached
+    search, the uncached search and the reference agree -/
+theorem class_fixed :
+    (apiSearchAt nfaCaretA cfgCaretA Cache.empty #[10, 48, 97] 0).1 = .ok none ∧
+    apiSearchAtU nfaCaretA cfgCaretA #[10, 48, 97] 0 = .ok none ∧
+    btSearchAt nfaCaretA #[10, 48, 97] 0 = none := by decide
+
+/-- `^`: `0/0/L.0.1;M` -/
+def nfaCaret : NFA := { states := #[.look .startText 1, .mtch], startAnchored := 0, startUnanchored := 0 }
+
+example : anchoredHeadB nfaCaret = true ∧ noRuneB nfaCaret = true ∧ sparseDisjointB nfaCaret = true := by decide
+
+/-- was `empty_at_end_deviates` (`^` "matched" at offset 1 of "a"): `matchesEmptyAt` uses the real context -/
+theorem empty_at_end_fixed :
+    apiSearchAtU nfaCaret Config.plain #[97] 1 = .ok none ∧ btSearchAt nfaCaret #[97] 1 = none := by decide
+
+/-- was `wb_precheck_deviates` (`x*\b` on "a\nx" at 2 ended at 2): the greedy `x` is consumed first -/
+theorem wb_precheck_fixed :
+    apiSearchAtU nfaXsWB Config.plain #[97, 10, 120] 2 = .ok (some 3) ∧
+    btSearchAt nfaXsWB #[97, 10, 120] 2 = some (2, 3) := by decide
+
+/-- `a|\B`: `2/6/B.97.97.3;L.5.3;P.0.1;E.4;M;B.0.255.6;P.2.5` -/
+def nfaAorNotWB : NFA :=
+  { states := #[.byteRange 97 97 3, .look .noWordB 3, .split 0 1, .eps 4, .mtch, .byteRange 0 255 6, .split 2 5],
+    startAnchored := 2, startUnanchored := 6 }
+
+/-- was `wb_precheck_deviates2` (`a|\B` on "aa" at 1 ended at 1): the higher-priority branch `a` wins -/
+theorem wb_precheck_fixed2 :
+    apiSearchAtU nfaAorNotWB Config.plain #[97, 97] 1 = .ok (some 2) ∧
+    btSearchAt nfaAorNotWB #[97, 97] 1 = some (1, 2) := by decide
 
 /-- `abc`: `0/5/B.97.97.1;B.98.98.2;B.99.99.3;M;B.0.255.5;P.0.4` -/
 def nfaABC : NFA :=
@@ -356,10 +421,10 @@ def nfaABC : NFA :=
 /-- cache of 200 bytes, 2 clears allowed, 5 byte classes (the real DFA for `abc` has 5) -/
 def cfg200 : Config := { capacity := 200, maxClears := 2, stride := 5, cls := id }
 
-/-- `SearchAtAnchored` after a cache clear restarts from the start state at the current position: "abc" is not found.
-    (Real code: `fidelity/witness` prints -1 for this configuration, 3 with the default cache.) -/
-theorem anchored_clear_visible :
-    (apiSearchAtAnchored nfaABC cfg200 Cache.empty #[97, 98, 99] 0).1 = .ok none ∧
+/-- was `anchored_clear_visible` (`SearchAtAnchored` lost "abc" after a cache clear): the successor is re-inserted into
+    the cleared cache and the search goes on -/
+theorem anchored_clear_fixed :
+    (apiSearchAtAnchored nfaABC cfg200 Cache.empty #[97, 98, 99] 0).1 = .ok (some 3) ∧
     apiSearchAtAnchoredU nfaABC cfg200 #[97, 98, 99] 0 = .ok (some 3) := by decide
 
 /-- `[ab]*a[ab][ab]`: `2/8/B.97.98.2;E.3;P.0.1;B.97.97.4;B.97.98.5;B.97.98.6;M;B.0.255.8;P.2.7` -/
@@ -371,80 +436,23 @@ def nfaABs : NFA :=
 /-- default capacity, the real byte classes of `[ab]*a[ab][ab]` (same as for `a|ab`) -/
 def cfgABs : Config := { capacity := 2097152, maxClears := 5, stride := 4, cls := clsAB }
 
-/-- STATE ACCELERATION IS UNSOUND AND MEMOISATION-VISIBLE.  Four `SearchAtAnchored` calls fill the row of the state
-    reached by "ab" without running the acceleration detection; the next `SearchAt` on the same cache then finds the row
-    full, declares the state accelerable (exit classes `a`, `b`; the dead class counts as "stay") and jumps over the
-    `0` in "abbab0bb": end 7 instead of 3.  (Real code: `fidelity/accel` prints 7; a fresh cache gives 3.) -/
-theorem accel_visible :
+set_option maxRecDepth 100000 in
+/-- was `accel_visible` (after four `SearchAtAnchored` calls had filled a row, `SearchAt` jumped over the `0` in
+    "abbab0bb": end 7): the same session now ends at 3, like a fresh cache and the reference -/
+theorem accel_fixed :
     (apiSearchAt nfaABs cfgABs (runCalls nfaABs cfgABs
         [.searchAtAnchored #[97, 98, 97] 0, .searchAtAnchored #[97, 98, 98] 0, .searchAtAnchored #[97, 98, 99] 0,
-         .searchAtAnchored #[97, 98, 48] 0]) #[97, 98, 98, 97, 98, 48, 98, 98] 0).1 = .ok (some 7) ∧
+         .searchAtAnchored #[97, 98, 48] 0]) #[97, 98, 98, 97, 98, 48, 98, 98] 0).1 = .ok (some 3) ∧
     (apiSearchAt nfaABs cfgABs Cache.empty #[97, 98, 98, 97, 98, 48, 98, 98] 0).1 = .ok (some 3) ∧
-    btSearchAt nfaABs #[97, 98, 98, 97, 98, 48, 98, 98] 0 = some (0, 3) := by decide
-
-/-- `(?m)^a`: `0/4/L.2.1;B.97.97.2;M;B.0.255.4;P.0.3` -/
-def nfaCaretA : NFA :=
-  { states := #[.look .startLine 1, .byteRange 97 97 2, .mtch, .byteRange 0 255 4, .split 0 3],
-    startAnchored := 0, startUnanchored := 4 }
-
-/-- the byte classes the compiler computes for `(?m)^a`: `[00-60]`, `[61]`, `[62-FF]` — `\n` is not separated -/
-def cfgCaretA : Config :=
-  { capacity := 2097152, maxClears := 5, stride := 3, cls := fun b => if b < 97 then 0 else if b = 97 then 1 else 2 }
-
-/-- the transition computed for `\n` is reused for `0` (same class): `(?m)^a` "matches" in "\n0a".
-    (Real code: `fidelity/witness` prints 3.) -/
-theorem class_unsound_visible :
-    (apiSearchAt nfaCaretA cfgCaretA Cache.empty #[10, 48, 97] 0).1 = .ok (some 3) ∧
-    apiSearchAtU nfaCaretA cfgCaretA #[10, 48, 97] 0 = .ok none ∧
-    btSearchAt nfaCaretA #[10, 48, 97] 0 = none := by decide
-
-theorem not_classSound_caretA : ¬ ClassSound nfaCaretA cfgCaretA := by
-  intro hC
-  have h1 : step nfaCaretA cfgCaretA (startState nfaCaretA .text false) 10 =
-      .next { nfa := [4, 0, 1, 3], isMatch := false, fromWord := false } := by decide
-  have h2 : step nfaCaretA cfgCaretA (startState nfaCaretA .text false) 48 =
-      .next { nfa := [4, 0, 3], isMatch := false, fromWord := true } := by decide
-  obtain ⟨T', e1, e2, _⟩ := (hC (startState nfaCaretA .text false) 10 48 (by decide) (by decide) rfl).2 _ h1
-  rw [h2] at e1
-  cases e1
-  exact absurd e2 (by decide)
+    btSearchAt nfaABs #[97, 98, 98, 97, 98, 48, 98, 98] 0 = some (0, 3) := by decide +kernel
 
 /-- `\B`: `0/3/L.5.1;M;B.0.255.3;P.0.2` -/
 def nfaNotWB : NFA :=
   { states := #[.look .noWordB 1, .mtch, .byteRange 0 255 3, .split 0 2], startAnchored := 0, startUnanchored := 3 }
 
-/-- with word boundaries the flags `matchAt(Non)WordBoundary` belong to the state OBJECT: the start state (flags never
-    computed) and the equal-keyed state `determinize` would create are the same cache entry.  Identity classes. -/
-theorem wb_flags_visible :
-    (apiIsMatch nfaNotWB Config.plain Cache.empty #[32, 32, 97]).1 = .ok false ∧
+/-- was `wb_flags_visible` (`\B` on "  a": the cached `IsMatch` said false): there are no per-object flags any more -/
+theorem wb_flags_fixed :
+    (apiIsMatch nfaNotWB Config.plain Cache.empty #[32, 32, 97]).1 = .ok true ∧
     apiIsMatchU nfaNotWB Config.plain #[32, 32, 97] = .ok true := by decide
-
-/-! ### (d) the code (and the model) against the reference, with look-around -/
-
-/-- `^`: `0/0/L.0.1;M` -/
-def nfaCaret : NFA := { states := #[.look .startText 1, .mtch], startAnchored := 0, startUnanchored := 0 }
-
-/-- `SearchAt(h, len(h))` asks the Pike VM whether the EMPTY haystack matches: `^` "matches" at offset 1 of "a" -/
-theorem empty_at_end_deviates :
-    apiSearchAtU nfaCaret Config.plain #[97] 1 = .ok (some 1) ∧ btSearchAt nfaCaret #[97] 1 = none := by decide
-
-/-- `x*\b`: `2/6/B.120.120.2;E.3;P.0.1;L.4.4;M;B.0.255.6;P.2.5` -/
-def nfaXsWB : NFA :=
-  { states := #[.byteRange 120 120 2, .eps 3, .split 0 1, .look .wordB 4, .mtch, .byteRange 0 255 6, .split 2 5],
-    startAnchored := 2, startUnanchored := 6 }
-
-/-- the word-boundary pre-check returns the current position before the greedy `x*` gets to consume the `x` -/
-theorem wb_precheck_deviates :
-    apiSearchAtU nfaXsWB Config.plain #[97, 10, 120] 2 = .ok (some 2) ∧
-    btSearchAt nfaXsWB #[97, 10, 120] 2 = some (2, 3) := by decide
-
-/-- `a|\B`: `2/6/B.97.97.3;L.5.3;P.0.1;E.4;M;B.0.255.6;P.2.5` -/
-def nfaAorNotWB : NFA :=
-  { states := #[.byteRange 97 97 3, .look .noWordB 3, .split 0 1, .eps 4, .mtch, .byteRange 0 255 6, .split 2 5],
-    startAnchored := 2, startUnanchored := 6 }
-
-theorem wb_precheck_deviates2 :
-    apiSearchAtU nfaAorNotWB Config.plain #[97, 97] 1 = .ok (some 1) ∧
-    btSearchAt nfaAorNotWB #[97, 97] 1 = some (1, 2) := by decide
 
 end Cx.Dfa
